@@ -111,12 +111,11 @@ func genEx(t *rapid.T) ExScript {
 		}
 		s.Mode = append(s.Mode, m)
 	}
-	// Slots at the two sites with a listed finding (pointer, below a
-	// non-string collection) mostly use an embedded reference, which works
-	// there, so that the rest of the case is evaluated to the end instead of
-	// stopping at the listed failure.
+	// Slots at the site with a listed finding (below a non-string collection)
+	// mostly use an embedded reference, which works there, so that the rest of
+	// the case is evaluated to the end instead of stopping at the listed failure.
 	for i, site := range slotSites(s.Shape) {
-		if (site == "ptr" || site == "non-string-collection") && s.Mode[i] < 2 && rapid.IntRange(0, 5).Draw(t, "keepwhole") != 0 {
+		if site == "non-string-collection" && s.Mode[i] < 2 && rapid.IntRange(0, 5).Draw(t, "keepwhole") != 0 {
 			s.Mode[i] = rapid.IntRange(2, 4).Draw(t, "mode2")
 		}
 	}
@@ -205,6 +204,203 @@ func slotSites(n *Node) []string {
 		}
 	}
 	walk(n, "field", false)
+	return out
+}
+
+// mapstructure key of a real struct field: the tag name, else the Go field
+// name; squash: the field adds no path segment.
+func msKey(sf reflect.StructField) (name string, squash bool) {
+	tag := sf.Tag.Get("mapstructure")
+	name, opts, _ := strings.Cut(tag, ",")
+	squash = strings.Contains(","+opts+",", ",squash,")
+	if name == "" {
+		name = sf.Name
+	}
+	return name, squash
+}
+
+// slotPaths gives, for every secret slot (builder order), the name under which
+// mapstructure reports it in a decoding error ('f0[1].g2[k0]').
+func slotPaths(n *Node) []string {
+	var out []string
+	join := func(base, key string) string {
+		if base == "" {
+			return key
+		}
+		return base + "." + key
+	}
+	var walkReal func(t reflect.Type, hdrs int, base string)
+	walkReal = func(t reflect.Type, hdrs int, base string) {
+		for i := 0; i < t.NumField(); i++ {
+			sf := t.Field(i)
+			if !sf.IsExported() {
+				continue
+			}
+			name, squash := msKey(sf)
+			p := join(base, name)
+			if squash {
+				p = base
+			}
+			switch {
+			case sf.Type == tOpaque, sf.Type == tOpaquePtr:
+				out = append(out, p)
+			case sf.Type == tHeaders:
+				for j := 0; j < hdrs; j++ {
+					out = append(out, fmt.Sprintf("%s[h%d]", p, j))
+				}
+			case sf.Type.Kind() == reflect.Struct && hasOpaque(sf.Type, map[reflect.Type]bool{}):
+				walkReal(sf.Type, hdrs, p)
+			case sf.Type.Kind() == reflect.Pointer && sf.Type.Elem().Kind() == reflect.Struct && hasOpaque(sf.Type.Elem(), map[reflect.Type]bool{}):
+				walkReal(sf.Type.Elem(), hdrs, p)
+			}
+		}
+	}
+	var walk func(n *Node, base string)
+	walk = func(n *Node, base string) {
+		switch n.K {
+		case "opaque":
+			out = append(out, base)
+		case "ptr":
+			walk(n.C[0], base)
+		case "slice", "array":
+			for i := 0; i < n.N; i++ {
+				walk(n.C[0], fmt.Sprintf("%s[%d]", base, i))
+			}
+		case "map":
+			for i := 0; i < n.N; i++ {
+				walk(n.C[0], fmt.Sprintf("%s[k%d]", base, i))
+			}
+		case "struct":
+			for i, c := range n.C {
+				if n.Tags[i] == 3 {
+					walk(c, base)
+				} else if k, ok := rtKey(n.Tags[i], i); ok {
+					walk(c, join(base, k))
+				} else {
+					walk(c, join(base, "?"))
+				}
+			}
+		case "real":
+			walkReal(realType(n.Real), n.N, base)
+		}
+	}
+	walk(n, "")
+	return out
+}
+
+// slotValue is what a decoded struct holds in one slot; present is false when
+// a nil pointer, a missing element or a missing key is on the way.
+type slotValue struct {
+	val     string
+	present bool
+}
+
+// slotValues reads the decoded value slot by slot (same order as the builder).
+func slotValues(v reflect.Value, n *Node) []slotValue {
+	var out []slotValue
+	missing := func(k int) {
+		for i := 0; i < k; i++ {
+			out = append(out, slotValue{})
+		}
+	}
+	var realCount func(t reflect.Type, hdrs int) int
+	realCount = func(t reflect.Type, hdrs int) int {
+		c := 0
+		for i := 0; i < t.NumField(); i++ {
+			sf := t.Field(i)
+			if !sf.IsExported() {
+				continue
+			}
+			switch {
+			case sf.Type == tOpaque, sf.Type == tOpaquePtr:
+				c++
+			case sf.Type == tHeaders:
+				c += hdrs
+			case sf.Type.Kind() == reflect.Struct && hasOpaque(sf.Type, map[reflect.Type]bool{}):
+				c += realCount(sf.Type, hdrs)
+			case sf.Type.Kind() == reflect.Pointer && sf.Type.Elem().Kind() == reflect.Struct && hasOpaque(sf.Type.Elem(), map[reflect.Type]bool{}):
+				c += realCount(sf.Type.Elem(), hdrs)
+			}
+		}
+		return c
+	}
+	var walkReal func(v reflect.Value, hdrs int)
+	walkReal = func(v reflect.Value, hdrs int) {
+		t := v.Type()
+		for i := 0; i < t.NumField(); i++ {
+			sf := t.Field(i)
+			if !sf.IsExported() {
+				continue
+			}
+			f := v.Field(i)
+			switch {
+			case sf.Type == tOpaque:
+				out = append(out, slotValue{f.String(), true})
+			case sf.Type == tOpaquePtr:
+				if f.IsNil() {
+					missing(1)
+				} else {
+					out = append(out, slotValue{f.Elem().String(), true})
+				}
+			case sf.Type == tHeaders:
+				for j := 0; j < hdrs; j++ {
+					if mv := f.MapIndex(reflect.ValueOf(fmt.Sprintf("h%d", j))); f.IsNil() || !mv.IsValid() {
+						missing(1)
+					} else {
+						out = append(out, slotValue{mv.String(), true})
+					}
+				}
+			case sf.Type.Kind() == reflect.Struct && hasOpaque(sf.Type, map[reflect.Type]bool{}):
+				walkReal(f, hdrs)
+			case sf.Type.Kind() == reflect.Pointer && sf.Type.Elem().Kind() == reflect.Struct && hasOpaque(sf.Type.Elem(), map[reflect.Type]bool{}):
+				if f.IsNil() {
+					missing(realCount(sf.Type.Elem(), hdrs))
+				} else {
+					walkReal(f.Elem(), hdrs)
+				}
+			}
+		}
+	}
+	var walk func(v reflect.Value, n *Node)
+	walk = func(v reflect.Value, n *Node) {
+		switch n.K {
+		case "opaque":
+			out = append(out, slotValue{v.String(), true})
+		case "ptr":
+			if v.IsNil() {
+				missing(slots(n.C[0]))
+			} else {
+				walk(v.Elem(), n.C[0])
+			}
+		case "slice", "array":
+			for i := 0; i < n.N; i++ {
+				if i < v.Len() {
+					walk(v.Index(i), n.C[0])
+				} else {
+					missing(slots(n.C[0]))
+				}
+			}
+		case "map":
+			for i := 0; i < n.N; i++ {
+				var mv reflect.Value
+				if !v.IsNil() {
+					mv = v.MapIndex(reflect.ValueOf(fmt.Sprintf("k%d", i)))
+				}
+				if mv.IsValid() {
+					walk(mv, n.C[0])
+				} else {
+					missing(slots(n.C[0]))
+				}
+			}
+		case "struct":
+			for i, c := range n.C {
+				walk(v.Field(i), c)
+			}
+		case "real":
+			walkReal(v, n.N)
+		}
+	}
+	walk(v, n)
 	return out
 }
 
@@ -324,14 +520,24 @@ func runExC(cEx *vt.C, s ExScript) (bool, string, *vt.Finding) {
 		}
 		return best, bestLen >= 0
 	}
-	// culprit: which slot a failure is attributed to (the signature names its
-	// site, never the secret).  Error texts print parsed values, which need not
-	// resemble the text, so slots at a site that is listed as not receiving the
-	// original text are blamed first, then the slot whose text the error shows,
-	// then the first whole-value slot.
+	// culprit: which slot a decoding error is attributed to (the signature names
+	// its site, never the secret).  mapstructure names the failing key
+	// ('f0[1].g2' expected type …): the first slot whose path the error quotes
+	// is the culprit.  Fallbacks (error texts print parsed values, which need
+	// not resemble the text): a whole-value slot below a non-string collection
+	// (the listed site), the slot whose text the error shows, the first
+	// whole-value slot.
+	paths := slotPaths(s.Shape)
 	culprit := func(errText string) int {
+		if len(paths) == n {
+			for i := range s.Texts {
+				if strings.Contains(errText, "'"+paths[i]+"'") {
+					return i
+				}
+			}
+		}
 		for i := range s.Texts {
-			if s.Mode[i] < 2 && (sites[i] == "ptr" || sites[i] == "non-string-collection") {
+			if s.Mode[i] < 2 && sites[i] == "non-string-collection" {
 				return i
 			}
 		}
@@ -387,43 +593,26 @@ func runExC(cEx *vt.C, s ExScript) (bool, string, *vt.Finding) {
 		}
 		return true, key, f
 	}
-	// stored unchanged?  nil pointers and empty strings both mean "no secret"
-	got := leafStrings(target.Elem().Interface())
-	ref := newBuilder().instantiate(s.Shape, want).Interface()
-	exp := leafStrings(ref)
-	// align by slot where possible: the builder fills every slot, the decoder may leave pointers nil
-	if len(got) == len(exp) {
-		for i := range exp {
-			if got[i] != exp[i] {
-				f := vt.Failf("expand/"+siteOf(i), "ALTERED: slot %d (shape %s): provider text %q must be stored as %s, stored %s", i, s.Shape.info().sig, s.Texts[i], excerpt(exp[i]), excerpt(got[i]))
-				if cEx.Soft(f, s) {
-					return true, key, nil
-				}
-				return true, key, f
-			}
+	// stored unchanged?  Read the decoded struct slot by slot; a nil pointer (or
+	// an absent element) is accepted only where the configured text is empty.
+	var got []slotValue
+	if p, _ := vt.Recover(func() { got = slotValues(target.Elem(), s.Shape) }); p != nil || len(got) != n {
+		cEx.Inconclusive("slotValues disagrees with the builder on %s (%v)", s.Shape.info().sig, p)
+		return false, key, nil
+	}
+	for i := range want {
+		if (got[i].present && got[i].val == string(want[i])) || (!got[i].present && len(want[i]) == 0) {
+			continue
 		}
-	} else {
-		ne := func(l []string) []string {
-			var o []string
-			for _, x := range l {
-				if x != "" {
-					o = append(o, x)
-				}
-			}
-			return o
+		stored := "nothing (nil pointer / absent element)"
+		if got[i].present {
+			stored = excerpt(got[i].val)
 		}
-		g, e := ne(got), ne(exp)
-		same := len(g) == len(e)
-		for i := 0; same && i < len(g); i++ {
-			same = g[i] == e[i]
+		f := vt.Failf("expand/"+siteOf(i), "ALTERED: slot %d at %q (shape %s): provider text %q must be stored as %s, stored %s", i, paths[i], s.Shape.info().sig, s.Texts[i], excerpt(string(want[i])), stored)
+		if cEx.Soft(f, s) {
+			return true, key, nil
 		}
-		if !same {
-			f := vt.Failf("expand/"+siteOf(culprit("")), "ALTERED: shape %s: stored secrets %q, configured %q", s.Shape.info().sig, g, e)
-			if cEx.Soft(f, s) {
-				return true, key, nil
-			}
-			return true, key, f
-		}
+		return true, key, f
 	}
 	// renderings of the decoded struct show only the marker
 	si := s.Shape.info()
